@@ -235,6 +235,7 @@ public:
 	void reset()
 	{
 		dispatch_queue_.clear();
+		deferred_fd_ops_ = 0;
 		map_.clear();
 		stop_ = false;
 		reactor_.reset();
@@ -251,7 +252,8 @@ public:
 	event_loop_impl(int type) :
 		reactor_type_(type),
 		stop_(false),
-		polling_(false)
+		polling_(false),
+		deferred_fd_ops_(0)
 	{
 	}
 	void post(handler const &h)
@@ -377,6 +379,14 @@ private:
 	// polling loop
 	//
 	bool polling_;
+
+	//
+	// Number of descriptor operations (set_io_event/cancel_io_events) waiting in the
+	// dispatch queue. While it is not zero later operations are queued as well, so that
+	// they are carried out in the order they were requested: a queued cancel must not hit
+	// a registration made after it, a queued registration must not escape a later cancel.
+	//
+	int deferred_fd_ops_;
 
 	//
 	// I/O - selectable events
@@ -506,11 +516,24 @@ private:
 	}
 
 	template<typename Functor>
-	void set_event(Functor &f)
+	struct deferred_fd_op {
+		Functor f;
+		event_loop_impl *self_;
+		void operator()()
+		{
+			lock_guard l(self_->data_mutex_);
+			f();
+			self_->deferred_fd_ops_ --;
+		}
+	};
+
+	template<typename Functor>
+	void defer_or_run(Functor &f)
 	{
-		lock_guard l(data_mutex_);
-		if(polling_ || !reactor_.get()) {
-			dispatch_queue_.push_back(completion_handler(f));
+		if(polling_ || !reactor_.get() || deferred_fd_ops_ > 0) {
+			deferred_fd_op<Functor> op = { f, this };
+			dispatch_queue_.push_back(completion_handler(handler(op)));
+			deferred_fd_ops_ ++;
 			if(reactor_.get())
 				wake();
 		}
@@ -518,19 +541,19 @@ private:
 			f();
 		}
 	}
+
+	template<typename Functor>
+	void set_event(Functor &f)
+	{
+		lock_guard l(data_mutex_);
+		defer_or_run(f);
+	}
 	void set_event(io_event_canceler &f)
 	{
 		lock_guard l(data_mutex_);
-		if(!f.cancelation_is_needed_with_data_mutex_locked())
+		if(deferred_fd_ops_ == 0 && !f.cancelation_is_needed_with_data_mutex_locked())
 			return;
-		if(polling_ || !reactor_.get()) {
-			dispatch_queue_.push_back(completion_handler(f));
-			if(reactor_.get())
-				wake();
-		}
-		else {
-			f();
-		}
+		defer_or_run(f);
 	}
 
 	bool run_one(reactor::event *evs,size_t evs_size)
